@@ -17,6 +17,7 @@ open SpsdkVerif.CfgArea SpsdkVerif.Misc
   compute <rules a:b,…> <mentioned idx,…> <vals>
   seal <start> <count> <vals>      exportSealed with the generated seal mark
   crc <hex>                        CRC-32/MPEG-2
+  xmcdhdr <size> <blockType> <instance> <interface>   header word with the generated tag
   tzexport <vals> | tzparse <n> <hex> | tzwords
 -/
 
@@ -80,6 +81,10 @@ def stepLine (st : St) : List String → St × String
   | ["tzparse", n, h] => match parseNat n, parseHex h with
     | some n, some b => (st, resLine natCsv (tzParse n b))
     | _, _ => (st, "bad-op")
+  | ["xmcdhdr", size, bt, inst, iface] => match parseNat size, parseNat bt, parseNat inst, parseNat iface with
+    | some size, some bt, some inst, some iface =>
+      (st, toString (xmcdHeader Generated.RegLayouts.xmcdTag size bt inst iface))
+    | _, _, _, _ => (st, "bad-op")
   | ["tzwords"] => (st, natCsv Generated.RegLayouts.tzWords)
   | ["consts"] => (st, s!"{toHex Generated.RegLayouts.sealMark} {toHex Generated.RegLayouts.bcaTag} {toHex Generated.RegLayouts.fcbTag} {Generated.RegLayouts.xmcdTag}")
   | _ => (st, "bad-op")
